@@ -333,10 +333,14 @@ def run(ctx):
             ctx.violate("roundtrip", f"intact-envelope-rejected-after-a-failed-read:{res2 if kind2 == 'other' else kind2}", {"zstd": level, "first": kind})
         elif docs_of(res2) != want_data:
             ctx.violate("roundtrip", "intact-envelope-differs-after-a-failed-read", {"zstd": level})
-        if kind == "ok" and docs_of(res) != want:
-            ctx.probe("payload_fault_decoded_to_different_package")
-        elif kind == "ok":
-            ctx.probe("payload_fault_decoded_to_same_package")
+        if kind == "ok":
+            # (a flipped payload bit can decode to a package that cannot even be serialised again, e.g. an edge that names a
+            #  node which does not exist: no oracle is stated for damaged payloads, so this only feeds a reach counter)
+            try:
+                same = docs_of(res) == want
+            except Exception:  # noqa: BLE001
+                same = None
+            ctx.probe("payload_fault_decoded_to_" + ("same_package" if same else "different_package" if same is False else "package_that_cannot_be_serialised"))
         else:
             ctx.probe("payload_fault_rejected:" + ("ValueError" if kind == "ValueError" else res))
 
